@@ -185,6 +185,31 @@ def inject_all(cfg):
         c = copy.deepcopy(cfg)
         c["endpoints"][i]["name"] = eps[0]["name"]
         yield "duplicate-endpoint-name", eps[i]["name"], c
+        # the same, with the connections following the new name (the two may differ in shape)
+        c = copy.deepcopy(cfg)
+        old = eps[i]["name"]
+        c["endpoints"][i]["name"] = eps[0]["name"]
+        for con in c["connections"]:
+            for k2 in ("src", "dst"):
+                if con[k2] == old:
+                    con[k2] = eps[0]["name"]
+        yield "duplicate-endpoint-name", eps[i]["name"] + " (connections renamed too)", c
+    # two windows of one endpoint that overlap each other
+    for i, e in enumerate(eps):
+        rs = _ranges(e)
+        if e.get("sbr_port_protocol") and len(rs) >= 2 and "array" not in e:
+            c = copy.deepcopy(cfg)
+            r0, r1 = rs[0], dict(rs[1])
+            st = _range_start(r0) + max(1, _range_size(r0) // 2)
+            if "base" in r1:
+                r1["base"] = st
+                r1.pop("idx", None)
+            else:
+                r1["start"] = st
+                if "end" in r1:
+                    r1["end"] = st + _range_size(rs[1])
+            _set_range(c["endpoints"][i], 1, r1)
+            yield "overlap", f"{e['name']}[1] onto its own window [0]", c
     if len(cfg["routers"]) > 1:
         c = copy.deepcopy(cfg)
         c["routers"][1]["name"] = cfg["routers"][0]["name"]
